@@ -503,7 +503,11 @@ TrigHb(c) ==
        /\ co' = CASE k = "hb_rebalance" -> [co EXCEPT !.gs = "Preparing"]
                   [] k = "hb_unknown" -> Remove(co, x.sid)
                   [] OTHER -> co
-       /\ Emitting(IF err = "conn" THEN [i \in 1..(HbRetry + 1) |-> HbEv(c, "conn")] ELSE <<HbEv(c, err)>>)
+       \* connection loss: the loop has HbRetry + 1 attempts. The coordinator drops every one it SEES, but after the first
+       \* loss the remaining attempts can die locally on the torn-down connection (heartbeatLoop closes and reopens the
+       \* coordinator's Broker while the session set-up and the offset manager use the same Broker): 1..HbRetry+1 are seen
+       /\ \E n \in (IF err = "conn" THEN 1..(HbRetry + 1) ELSE {1}) :
+            Emitting(IF err = "conn" THEN [i \in 1..n |-> HbEv(c, "conn")] ELSE <<HbEv(c, err)>>)
        /\ script' = RecTrig(script, c, k, at)
   /\ cl' = [cl EXCEPT ![c].hb = "dead", ![c].ctx = TRUE, ![c].trig = 1]
   /\ tb' = tb - 1
